@@ -128,7 +128,8 @@ theorem combJitW_eq_combJit (N k : Int) (hN0 : -(2 ^ 63) ≤ N) (hN : N ≤ intp
     omega
 
 example : combJit 10 3 = 120 := by decide
-example : combJit 66 33 = 7219428434016265740 := by decide
+example : combJit 61 30 = 232714176627630544 := by decide
+example : combJit 66 33 = 0 := by decide  -- C(66,33) fits, but the product C(66,32)*34 does not
 example : combJit 68 34 = 0 := by decide
 example : combJit intpMax intpMax = 1 := by decide
 example : combJit intpMax (intpMax - 1) = intpMax := by decide
